@@ -478,11 +478,57 @@ def work(run, names):
         run.distinct.add(f"{name}|random-strings")
 
 
+def plaintext_family(run):
+    """the plaintext-family "hashes" are the password text: an altered stored value must not verify the original password,
+    also for text that cannot be encoded (lone surrogates) and for stored bytes read under a non-default encoding"""
+    prefixes = {"plaintext": "", "ldap_plaintext": "", "roundup_plaintext": "{plaintext}"}
+    for name, pre in prefixes.items():
+        h = H.get(name)
+        for stored, alts in (("pw\udc80x", ["pw\udc81x", "pw?x", "pw\ufffdx", "pwx"]), ("\ud800abc", ["\ud801abc", "?abc", "abc"]), ("pässwörd", ["passwörd", "pässwörd ", "PÄSSWÖRD"])):
+            for alt in alts:
+                for form in ("str", "bytes"):
+                    try:
+                        arg = pre + alt if form == "str" else (pre + alt).encode("utf-8", "surrogatepass")
+                    except UnicodeError:
+                        continue
+                    try:
+                        r = h.verify(stored, arg)
+                    except (ValueError, TypeError):
+                        r = "refused"
+                    except Exception as e:
+                        run.violation(f"C08|{name}|plaintext-family|internal-error|{type(e).__name__}", f"{name}.verify raised {type(e).__name__}: {str(e)[:80]}", dict(hasher=name, password=repr(stored), stored=repr(arg)))
+                        continue
+                    run.count("plaintext_family_cases")
+                    run.case((name, "plaintext-family", "surrogate" if any(0xD800 <= ord(c) <= 0xDFFF for c in stored) else "text", form), dict(hasher=name, password=repr(stored), stored=repr(arg), answer=str(r)))
+                    if r is True:
+                        run.violation(f"C08|{name}|altered-hash-verifies|plaintext-value-changed", f"{name}: the stored value {arg!r} verifies the password {stored!r} although they differ", dict(hasher=name, password=repr(stored), stored=repr(arg)))
+        if "encoding" in getattr(h, "context_kwds", ()) and not hasattr(h, "wrapped"):      # (a prefix wrapper has to decode the value before it knows the encoding)
+            for enc in ("latin-1", "cp1252", "koi8-r"):
+                pw = "p\u00e4ssw\u00f6rd" if enc != "koi8-r" else "\u043f\u0430\u0440\u043e\u043b\u044c"
+                genuine, foreign = (pre + pw).encode(enc), (pre + pw).encode("utf-8")
+                try:
+                    a, b = h.verify(pw, genuine, encoding=enc), None
+                    try:
+                        b = h.verify(pw, foreign, encoding=enc)
+                    except (ValueError, TypeError):
+                        b = "refused"
+                except Exception as e:
+                    run.violation(f"C08|{name}|plaintext-family|encoding|{type(e).__name__}", f"{name}.verify(.., encoding={enc!r}) raised {type(e).__name__}: {str(e)[:80]}", dict(hasher=name, encoding=enc))
+                    continue
+                run.count("plaintext_family_cases")
+                run.case((name, "plaintext-family", "encoding", enc), None)
+                if a is not True or b is True:
+                    run.violation(f"C08|{name}|altered-hash-verifies|stored-bytes-under-another-encoding" if b is True else f"C08|{name}|plaintext-family|genuine-bytes-rejected",
+                                  f"{name} with encoding={enc!r}: the value stored in that encoding verifies={a!r}; the UTF-8 bytes of the password (different text under {enc}) verify={b!r}", dict(hasher=name, encoding=enc, password=pw))
+
+
 def body(run):
     names = H.names()
     order = sorted(names, key=lambda n: (("bcrypt" in n) * 2 + (n in ("scrypt",)), n))
     shards = [dict(names=order[i::16]) for i in range(16)]
     run.parallel("checks.c08", "work", shards, timeout=1400 if run.tier == "quick" else 6000)
+    plaintext_family(run)
+    run.require("plaintext_family_cases", 30)
     for n in names:
         if H.usable(n):
             run.require(f"seeds:{n}", 2 if (n not in H.PLAIN and n not in H.DISABLED) else 1)
